@@ -34,34 +34,37 @@ structure CacheSite where
   params : List Nat
   free : List (Nat × Nat)
   selfAttrs : List Nat
+  returns : Nat
+  callers : Nat
   deriving Repr, DecidableEq
 
-/-- every memoised function: parameters, free names with what binds them at module level, attributes read through self/cls -/
+/-- every memoised function: parameters, free names with what binds them at module level, attributes read through self/cls,
+return annotation, number of loads of its name in the package -/
 def cacheSites : List CacheSite :=
-  [{ file := k! "format.py", func := k! "PythonVersion._is_py_310_or_later", decorator := k! "cached_property", params := [k! "self"], free := [], selfAttrs := [k! "PY_39", k! "value"] },
-   { file := k! "format.py", func := k! "PythonVersion._is_py_311_or_later", decorator := k! "cached_property", params := [k! "self"], free := [], selfAttrs := [k! "PY_310", k! "PY_39", k! "value"] },
-   { file := k! "imports.py", func := k! "Import.from_full_path", decorator := k! "lru_cache", params := [k! "cls", k! "class_path"], free := [(k! "Import", k! "class")], selfAttrs := [] },
-   { file := k! "model/base.py", func := k! "ConstraintsBase.has_constraints", decorator := k! "cached_property", params := [k! "self"], free := [], selfAttrs := [k! "dict"] },
-   { file := k! "model/base.py", func := k! "get_template", decorator := k! "lru_cache", params := [k! "template_file_path"], free := [(k! "Environment", k! "import"), (k! "FileSystemLoader", k! "import"), (k! "TEMPLATE_DIR", k! "constant"), (k! "escape_docstring", k! "def")], selfAttrs := [] },
-   { file := k! "model/base.py", func := k! "TemplateBase.template_file_path", decorator := k! "cached_property", params := [k! "self"], free := [], selfAttrs := [] },
-   { file := k! "model/base.py", func := k! "TemplateBase.template", decorator := k! "cached_property", params := [k! "self"], free := [(k! "get_template", k! "def")], selfAttrs := [k! "template_file_path"] },
-   { file := k! "model/base.py", func := k! "DataModel.template_file_path", decorator := k! "cached_property", params := [k! "self"], free := [(k! "Path", k! "import")], selfAttrs := [k! "TEMPLATE_FILE_PATH", k! "_custom_template_dir"] },
-   { file := k! "model/base.py", func := k! "DataModel.path", decorator := k! "cached_property", params := [k! "self"], free := [], selfAttrs := [k! "reference"] },
-   { file := k! "model/pydantic/base_model.py", func := k! "BaseModelBase.template_file_path", decorator := k! "cached_property", params := [k! "self"], free := [(k! "Path", k! "import")], selfAttrs := [k! "TEMPLATE_FILE_PATH", k! "_custom_template_dir"] },
-   { file := k! "parser/jsonschema.py", func := k! "JsonSchemaObject.is_object", decorator := k! "cached_property", params := [k! "self"], free := [], selfAttrs := [k! "allOf", k! "anyOf", k! "oneOf", k! "properties", k! "ref", k! "type"] },
-   { file := k! "parser/jsonschema.py", func := k! "JsonSchemaObject.is_array", decorator := k! "cached_property", params := [k! "self"], free := [], selfAttrs := [k! "items", k! "type"] },
-   { file := k! "parser/jsonschema.py", func := k! "JsonSchemaObject.ref_object_name", decorator := k! "cached_property", params := [k! "self"], free := [], selfAttrs := [k! "ref"] },
-   { file := k! "parser/jsonschema.py", func := k! "JsonSchemaObject.has_default", decorator := k! "cached_property", params := [k! "self"], free := [], selfAttrs := [k! "__fields_set__", k! "extras"] },
-   { file := k! "parser/jsonschema.py", func := k! "JsonSchemaObject.has_constraint", decorator := k! "cached_property", params := [k! "self"], free := [], selfAttrs := [k! "__constraint_fields__", k! "__fields_set__"] },
-   { file := k! "parser/jsonschema.py", func := k! "JsonSchemaObject.ref_type", decorator := k! "cached_property", params := [k! "self"], free := [(k! "get_ref_type", k! "def")], selfAttrs := [k! "ref"] },
-   { file := k! "parser/jsonschema.py", func := k! "JsonSchemaObject.type_has_null", decorator := k! "cached_property", params := [k! "self"], free := [], selfAttrs := [k! "type"] },
-   { file := k! "parser/jsonschema.py", func := k! "get_ref_type", decorator := k! "lru_cache", params := [k! "ref"], free := [(k! "JSONReference", k! "class"), (k! "is_url", k! "import")], selfAttrs := [] },
-   { file := k! "parser/jsonschema.py", func := k! "JsonSchemaParser.schema_paths", decorator := k! "cached_property", params := [k! "self"], free := [], selfAttrs := [k! "SCHEMA_PATHS"] },
-   { file := k! "reference.py", func := k! "camel_to_snake", decorator := k! "lru_cache", params := [k! "string"], free := [(k! "_UNDER_SCORE_1", k! "constant"), (k! "_UNDER_SCORE_2", k! "constant")], selfAttrs := [] },
-   { file := k! "reference.py", func := k! "get_singular_name", decorator := k! "lru_cache", params := [k! "name", k! "suffix"], free := [(k! "inflect_engine", k! "unknown")], selfAttrs := [] },
-   { file := k! "reference.py", func := k! "snake_to_upper_camel", decorator := k! "lru_cache", params := [k! "word", k! "delimiter"], free := [], selfAttrs := [] },
-   { file := k! "types.py", func := k! "_remove_none_from_type", decorator := k! "lru_cache", params := [k! "type_", k! "split_pattern", k! "delimiter"], free := [(k! "NONE", k! "constant"), (k! "re", k! "import")], selfAttrs := [] },
-   { file := k! "types.py", func := k! "get_optional_type", decorator := k! "lru_cache", params := [k! "type_", k! "use_union_operator"], free := [(k! "NONE", k! "constant"), (k! "OPTIONAL_PREFIX", k! "constant"), (k! "_remove_none_from_union", k! "def")], selfAttrs := [] }]
+  [{ file := k! "format.py", func := k! "PythonVersion._is_py_310_or_later", decorator := k! "cached_property", params := [k! "self"], free := [], selfAttrs := [k! "PY_39", k! "value"], returns := k! "bool", callers := 2 },
+   { file := k! "format.py", func := k! "PythonVersion._is_py_311_or_later", decorator := k! "cached_property", params := [k! "self"], free := [], selfAttrs := [k! "PY_310", k! "PY_39", k! "value"], returns := k! "bool", callers := 1 },
+   { file := k! "imports.py", func := k! "Import.from_full_path", decorator := k! "lru_cache", params := [k! "cls", k! "class_path"], free := [(k! "Import", k! "class")], selfAttrs := [], returns := k! "Import", callers := 78 },
+   { file := k! "model/base.py", func := k! "ConstraintsBase.has_constraints", decorator := k! "cached_property", params := [k! "self"], free := [], selfAttrs := [k! "dict"], returns := k! "bool", callers := 2 },
+   { file := k! "model/base.py", func := k! "get_template", decorator := k! "lru_cache", params := [k! "template_file_path"], free := [(k! "Environment", k! "import"), (k! "FileSystemLoader", k! "import"), (k! "TEMPLATE_DIR", k! "constant"), (k! "escape_docstring", k! "def")], selfAttrs := [], returns := k! "Template", callers := 2 },
+   { file := k! "model/base.py", func := k! "TemplateBase.template_file_path", decorator := k! "cached_property", params := [k! "self"], free := [], selfAttrs := [], returns := k! "Path", callers := 6 },
+   { file := k! "model/base.py", func := k! "TemplateBase.template", decorator := k! "cached_property", params := [k! "self"], free := [(k! "get_template", k! "def")], selfAttrs := [k! "template_file_path"], returns := k! "Template", callers := 2 },
+   { file := k! "model/base.py", func := k! "DataModel.template_file_path", decorator := k! "cached_property", params := [k! "self"], free := [(k! "Path", k! "import")], selfAttrs := [k! "TEMPLATE_FILE_PATH", k! "_custom_template_dir"], returns := k! "Path", callers := 6 },
+   { file := k! "model/base.py", func := k! "DataModel.path", decorator := k! "cached_property", params := [k! "self"], free := [], selfAttrs := [k! "reference"], returns := k! "str", callers := 222 },
+   { file := k! "model/pydantic/base_model.py", func := k! "BaseModelBase.template_file_path", decorator := k! "cached_property", params := [k! "self"], free := [(k! "Path", k! "import")], selfAttrs := [k! "TEMPLATE_FILE_PATH", k! "_custom_template_dir"], returns := k! "Path", callers := 6 },
+   { file := k! "parser/jsonschema.py", func := k! "JsonSchemaObject.is_object", decorator := k! "cached_property", params := [k! "self"], free := [], selfAttrs := [k! "allOf", k! "anyOf", k! "oneOf", k! "properties", k! "ref", k! "type"], returns := k! "bool", callers := 4 },
+   { file := k! "parser/jsonschema.py", func := k! "JsonSchemaObject.is_array", decorator := k! "cached_property", params := [k! "self"], free := [], selfAttrs := [k! "items", k! "type"], returns := k! "bool", callers := 6 },
+   { file := k! "parser/jsonschema.py", func := k! "JsonSchemaObject.ref_object_name", decorator := k! "cached_property", params := [k! "self"], free := [], selfAttrs := [k! "ref"], returns := k! "str", callers := 0 },
+   { file := k! "parser/jsonschema.py", func := k! "JsonSchemaObject.has_default", decorator := k! "cached_property", params := [k! "self"], free := [], selfAttrs := [k! "__fields_set__", k! "extras"], returns := k! "bool", callers := 19 },
+   { file := k! "parser/jsonschema.py", func := k! "JsonSchemaObject.has_constraint", decorator := k! "cached_property", params := [k! "self"], free := [], selfAttrs := [k! "__constraint_fields__", k! "__fields_set__"], returns := k! "bool", callers := 2 },
+   { file := k! "parser/jsonschema.py", func := k! "JsonSchemaObject.ref_type", decorator := k! "cached_property", params := [k! "self"], free := [(k! "get_ref_type", k! "def")], selfAttrs := [k! "ref"], returns := k! "JSONReference | None", callers := 1 },
+   { file := k! "parser/jsonschema.py", func := k! "JsonSchemaObject.type_has_null", decorator := k! "cached_property", params := [k! "self"], free := [], selfAttrs := [k! "type"], returns := k! "bool", callers := 9 },
+   { file := k! "parser/jsonschema.py", func := k! "get_ref_type", decorator := k! "lru_cache", params := [k! "ref"], free := [(k! "JSONReference", k! "class"), (k! "is_url", k! "import")], selfAttrs := [], returns := k! "JSONReference", callers := 2 },
+   { file := k! "parser/jsonschema.py", func := k! "JsonSchemaParser.schema_paths", decorator := k! "cached_property", params := [k! "self"], free := [], selfAttrs := [k! "SCHEMA_PATHS"], returns := k! "list[tuple[str, list[str]]]", callers := 1 },
+   { file := k! "reference.py", func := k! "camel_to_snake", decorator := k! "lru_cache", params := [k! "string"], free := [(k! "_UNDER_SCORE_1", k! "constant"), (k! "_UNDER_SCORE_2", k! "constant")], selfAttrs := [], returns := k! "str", callers := 1 },
+   { file := k! "reference.py", func := k! "get_singular_name", decorator := k! "lru_cache", params := [k! "name", k! "suffix"], free := [(k! "inflect_engine", k! "unknown")], selfAttrs := [], returns := k! "str", callers := 2 },
+   { file := k! "reference.py", func := k! "snake_to_upper_camel", decorator := k! "lru_cache", params := [k! "word", k! "delimiter"], free := [], selfAttrs := [], returns := k! "str", callers := 4 },
+   { file := k! "types.py", func := k! "_remove_none_from_type", decorator := k! "lru_cache", params := [k! "type_", k! "split_pattern", k! "delimiter"], free := [(k! "NONE", k! "constant"), (k! "re", k! "import")], selfAttrs := [], returns := k! "list[str]", callers := 0 },
+   { file := k! "types.py", func := k! "get_optional_type", decorator := k! "lru_cache", params := [k! "type_", k! "use_union_operator"], free := [(k! "NONE", k! "constant"), (k! "OPTIONAL_PREFIX", k! "constant"), (k! "_remove_none_from_union", k! "def")], selfAttrs := [], returns := k! "str", callers := 7 }]
 
 /-- mutable displays / constructor calls assigned in a class body: (file, class, attribute, kind) -/
 def classMutables : List (Nat × Nat × Nat × Nat) :=
@@ -132,5 +135,19 @@ def memoValueWrites : List (Nat × Nat × Nat × Nat) :=
    (k! "parser/base.py", k! "Parser.__set_default_enum_member", k! "enum_member.alias", k! "alias"),
    (k! "parser/base.py", k! "Parser.__set_default_enum_member", k! "enum_member_.alias", k! "alias"),
    (k! "reference.py", k! "_BaseModel.__init__", k! "self", k! "<dynamic>")]
+
+structure ListingSite where
+  file : Nat
+  func : Nat
+  call : Nat
+  isSorted : Bool
+  key : Nat
+  deriving Repr, DecidableEq
+
+/-- every call of a directory-listing primitive (rglob/glob/iglob/iterdir/walk/fwalk/listdir/scandir): is it the first
+argument of `sorted(`, and with which `key=` (empty = natural total order of the entries) -/
+def listingSites : List ListingSite :=
+  [{ file := k! "__init__.py", func := k! "get_first_file", call := k! "path.rglob", isSorted := false, key := k! "" },
+   { file := k! "parser/base.py", func := k! "Parser.iter_source", call := k! "self.source.rglob", isSorted := true, key := k! "lambda p: p.name" }]
 
 end Dcg.Gen.SetSites
